@@ -77,6 +77,9 @@ def run(ctx: Ctx) -> None:
             for ln in range(1, nlines + 1):
                 for code in rng.sample(CODES, 2):
                     err = classes[code](line=ln, column=0, msg="m", filename=str(p))
+                    if rng.random() < 0.5:           # where the node ends is no part of the rule
+                        err.line_end = rng.randrange(1, nlines + 1)
+                        err.column_end = rng.randrange(0, 5)
                     rmain.get_source_lines.cache_clear()
                     try:
                         real = bool(rmain.is_ignored_via_comment(err))
@@ -142,7 +145,8 @@ def metamorphic(ctx: Ctx) -> None:
     from refurb.main import run_refurb
     from refurb.settings import Settings
     rng = ctx.rng
-    stmts = ["a{i} = int(0)", "b{i} = not not a0", "print('')", "c{i} = str('') and not not a0", "d{i} = 1"]
+    stmts = ["a{i} = int(0)", "b{i} = not not a0", "print('')", "c{i} = str('') and not not a0", "d{i} = 1",
+             "e{i} = int(\n    0\n)", "f{i} = [\n    not not a0,\n    int(0),\n]", "for g{i} in (1,):\n    print('')", "h{i} = (a0\n    if a0 else 2)"]
     specials = ["s{i} = 'x\x0cy'", "s{i} = 'x\x0by'", "s{i} = 'x\x1cy'", "s{i} = 'x y'", "s{i} = 'x\x85y'", "# comment \x0c here", "s{i} = '''a\nb'''"]
     with tempfile.TemporaryDirectory(prefix="c08m-") as td:
         for t in range(ctx.budget(12, 150)):
@@ -162,14 +166,22 @@ def metamorphic(ctx: Ctx) -> None:
             for idx, l in enumerate(lines):
                 phys_to_idx[pl] = idx
                 pl += 1 + l.count("\n")
-            chosen = rng.sample(sorted({ln for ln, _ in diag}), rng.randrange(1, len({ln for ln, _ in diag}) + 1))
+            # logical statements with a diagnostic on any of their lines; the comment is appended to the
+            # statement, i.e. lands on its LAST physical line, and acts on that line alone
+            starts = sorted(phys_to_idx)
+            touched = sorted({max(st for st in starts if st <= ln) for ln, _ in diag})
+            chosen = rng.sample(touched, rng.randrange(1, len(touched) + 1))
             new = list(lines)
             expect = set(diag)
-            for ln in chosen:
-                idx = phys_to_idx.get(ln)
-                if idx is None:
-                    continue
+            for st in chosen:
+                idx = phys_to_idx[st]
+                ln = st + lines[idx].count("\n")
                 codes_here = sorted(c for l2, c in diag if l2 == ln)
+                if not codes_here:                   # decoy: the comment's line has no diagnostic of its own
+                    decoy = sorted(c for l2, c in diag if st <= l2 <= ln)
+                    new[idx] += rng.choice(["  # noqa", "  # noqa: " + ", ".join(decoy)])
+                    ctx.count("metamorphic-comment-on-other-line-of-the-node")
+                    continue
                 style = rng.random()
                 if style < 0.3:
                     new[idx] += "  # noqa"
